@@ -733,8 +733,13 @@ class BinaryOp(Expr):
         else:
             operand_type = self.type
 
-        left = convert_value(self.left.eval(), ltype, operand_type)
-        right = convert_value(self.right.eval(), rtype, operand_type)
+        # an operand is first of all what a cell of its own type holds
+        # (the SINGLE literal 0.1 is the nearest single-precision
+        # number, not the DOUBLE 0.1)
+        left = convert_value(
+            cell_value(self.left.eval(), ltype), ltype, operand_type)
+        right = convert_value(
+            cell_value(self.right.eval(), rtype), rtype, operand_type)
 
         def qbool(x):
             return -1 if x else 0
@@ -823,7 +828,7 @@ class UnaryOp(Expr):
         if not self.arg.type.is_numeric:
             raise EvalError('Invalid operand for unary operator')
 
-        value = self.arg.eval()
+        value = cell_value(self.arg.eval(), self.arg.type)
         if self.op == Operator.NOT:
             # the operand is converted to the (integral) result type
             # first, like the generated code does
